@@ -3041,9 +3041,44 @@ func (c *compiler) emitCallee(callee compiledExpr) (calleeName unistring.String)
 		// no-op
 	default:
 		c.emit(loadUndef)
+		optBlock, numBreaks, numConts := c.markOptChainJumps()
 		callee.emitGetter(true)
+		c.landOptChainJumps(optBlock, numBreaks, numConts)
 	}
 	return
+}
+
+// markOptChainJumps and landOptChainJumps bracket the emission of code that runs with an extra value on the stack
+// (the 'this' placeholder of a call, the variadic marker) which the rest of the optional chain does not know about.
+// A short circuit taken inside would jump to the end of the chain leaving that value behind: such jumps are
+// redirected to a landing pad that drops it and then continues to the end of the chain.
+func (c *compiler) markOptChainJumps() (b *block, numBreaks, numConts int) {
+	if b = c.block; b != nil && b.typ == blockOptChain {
+		return b, len(b.breaks), len(b.conts)
+	}
+	return nil, 0, 0
+}
+
+func (c *compiler) landOptChainJumps(b *block, numBreaks, numConts int) {
+	if b == nil || c.block != b || len(b.breaks) == numBreaks && len(b.conts) == numConts {
+		return
+	}
+	skip := len(c.p.code)
+	c.emit(nil)
+	pad := len(c.p.code)
+	for _, item := range b.breaks[numBreaks:] {
+		c.p.code[item] = jopt(pad - item)
+	}
+	for _, item := range b.conts[numConts:] {
+		c.p.code[item] = joptc(pad - item)
+	}
+	b.breaks = b.breaks[:numBreaks]
+	b.conts = b.conts[:numConts]
+	// stack: extra value, undefined -> undefined
+	c.emit(endVariadic)
+	b.breaks = append(b.breaks, len(c.p.code))
+	c.emit(nil)
+	c.p.code[skip] = jump(len(c.p.code) - skip)
 }
 
 func (e *compiledCallExpr) emitGetter(putOnStack bool) {
@@ -3051,10 +3086,7 @@ func (e *compiledCallExpr) emitGetter(putOnStack bool) {
 	var numBreaks, numConts int
 	if e.isVariadic {
 		e.c.emit(startVariadic)
-		if b := e.c.block; b != nil && b.typ == blockOptChain {
-			optBlock = b
-			numBreaks, numConts = len(b.breaks), len(b.conts)
-		}
+		optBlock, numBreaks, numConts = e.c.markOptChainJumps()
 	}
 	calleeName := e.c.emitCallee(e.callee)
 
@@ -3111,25 +3143,7 @@ func (e *compiledCallExpr) emitGetter(putOnStack bool) {
 	}
 	if e.isVariadic {
 		e.c.emit(endVariadic)
-		if optBlock != nil && e.c.block == optBlock && (len(optBlock.breaks) > numBreaks || len(optBlock.conts) > numConts) {
-			// A short circuit of the optional chain inside this call would skip endVariadic and leave
-			// the variadic marker on the stack: land it here first, then continue to the end of the chain.
-			skip := len(e.c.p.code)
-			e.c.emit(nil)
-			pad := len(e.c.p.code)
-			for _, item := range optBlock.breaks[numBreaks:] {
-				e.c.p.code[item] = jopt(pad - item)
-			}
-			for _, item := range optBlock.conts[numConts:] {
-				e.c.p.code[item] = joptc(pad - item)
-			}
-			optBlock.breaks = optBlock.breaks[:numBreaks]
-			optBlock.conts = optBlock.conts[:numConts]
-			e.c.emit(endVariadic)
-			optBlock.breaks = append(optBlock.breaks, len(e.c.p.code))
-			e.c.emit(nil)
-			e.c.p.code[skip] = jump(len(e.c.p.code) - skip)
-		}
+		e.c.landOptChainJumps(optBlock, numBreaks, numConts)
 	}
 	if !putOnStack {
 		e.c.emit(pop)
